@@ -71,6 +71,7 @@ class Func(object):
         self.is_staticmethod = any(
             isinstance(d, ast.Name) and d.id == "staticmethod" for d in node.decorator_list
         )
+        self.is_property = any(isinstance(d, ast.Name) and d.id == "property" for d in node.decorator_list)
 
     @property
     def qualname(self):
